@@ -688,6 +688,14 @@ class Translator:
                     cg = self.P.fn(callee)
                 if cg is not None and cg.crate == "bignumber":
                     self.used_bignum.add(cg.path)
+                    src_ = re.search(r"From<(.+?)>+$", cg.j.get("impl_trait_full") or "")
+                    dst_ = cg.impl_self or ""
+                    if src_ and ("Decimal256" in dst_) != ("Decimal" in src_.group(1)) and cg.body is not None:
+                        # integer <-> fixed-point: a *scaling* conversion (`From<Uint256> for Decimal256` multiplies the raw value
+                        # by 10^18) is an operation, interpreted from its own body like any other callee
+                        exits_ = common.exit_sites(self.P, cg)
+                        if len(exits_) == 1:
+                            return self.tr(exits_[0][3], self.callee_env(cg, v, env))
             return self.tr(v[4][0], env)
         f = self.P.fn(callee) or self.P.fn(g)
         if f is not None and f.body is not None:
